@@ -15,7 +15,7 @@ MANIFEST = dict(
     category="proof",
     technique="the real kalman.correct executed on matrix letters of symbolic dimensions (free algebra with involution); scipy cholesky / cho_solve / solve_triangular replaced by their assumed contracts whose preconditions become obligations; posterior mean, Joseph = posterior = information form decided by rewriting to normal form; symmetric PSD from the syntactic congruence form; frame from object identity; float64 run-time stand-in against a 60-digit reference; Bounded stand-ins shared by all properties (labelled bounded, never counted as proved): the argument-form battery of the modules under contract (batches of 1 and 1200 rows, integer-typed values, labels / columns in other orders, extra labels); where the frame analysis finds state that outlives a call (a cache, a memo) the frame obligation becomes a dynamic purity contract against pristine process states; names the proofs replace by scipy contracts are checked to be bound to the library's functions (else a differential test).",
     text="For ALL dimensions n, m >= 1 (letters with symbolic shapes, conformability checked by z3): every product in correct is conformable; S = H P H^T + R is symmetric positive definite for PSD P and PD R (sum of a congruence and a PD letter), so the Cholesky precondition holds; the returned mean is x + P H^T S^-1 (z - H x); the returned covariance (the Joseph expression as executed) equals P - P H^T S^-1 H P and, for invertible P, the information form (P^-1 + H^T R^-1 H)^-1; it is syntactically a sum of congruences X P X^T + Y R Y^T, hence symmetric PSD, and P minus it is a congruence of S^-1, hence never larger than the prior; the innovation is L^-1 (z - H x) with L the LOWER Cholesky factor of S (the lower flags of the three scipy calls are recorded and must agree); no parameter is overwritten (overwrite flags only on fresh intermediates). Order independence of independent blocks follows from additivity of the information form (lemma). Behaviour under ill-conditioning is floating point and only covered by the bounded stand-in.",
-    note="A1 (floats as reals) for the identities; scipy contracts: cholesky(S, lower) requires symmetric PD S and returns L with L L^T = S, cho_solve((L, lower), B) = S^-1 B, solve_triangular(L, b, lower) = L^-1 b; PSD lemmas (congruence, sum) and continuity of the update at singular P are assumed theorems; the float stand-in states its bounds.",
+    note="A1 (floats as reals) for the identities; scipy contracts: cholesky(S, lower) requires symmetric PD S and returns L with L L^T = S, cho_solve((L, lower), B) = S^-1 B, solve_triangular(L, b, lower) = L^-1 b; the PSD lemmas (congruence, sum, PSD + PD, Joseph form, prior minus posterior) are proved for all dimensions in lean/Psd.lean (Mathlib; re-checked by lean in the thorough tier); continuity of the update at singular P is an assumed theorem; the float stand-in states its bounds.",
 )
 LEVEL = "proof"
 LEVEL_NOTE = MANIFEST["text"]
